@@ -1305,7 +1305,8 @@ _FOR_LOOP = re.compile(
     r"(?:\s*,\s*(?:"
     r"(?:\(?)\s*[A-Za-z_][A-Za-z_0-9]*"
     r"(?:\s*,\s*(?:[A-Za-z_][A-Za-z_0-9]*),??)*\s*(?:\)?)"
-    r"),??)*\s*(?:\)?))\s+in\s+(.*):"
+    r"),??)*\s*(?:\)?))\s+in\s+(.*):",
+    re.S,
 )
 
 
